@@ -5,3 +5,4 @@ import Model.Proxy
 import Model.Envelope
 import Model.Policy
 import Model.Store
+import Model.Attempt
